@@ -117,6 +117,14 @@ def p_finite(t):
     return a + c
 
 
+def p_nan_grid(t):
+    """Grid whose values include NaN (supported by GridSampler): after a JSON round trip the stored
+    NaN is another object than the sampler's own."""
+    x = t.suggest_categorical("x", [0.5, float("nan")])
+    y = t.suggest_categorical("y", [1, 2, 3])
+    return (10.0 if x != x else x) + y
+
+
 PROGRAMS: dict[str, tuple[Callable, int, bool, dict | None]] = {
     # name: (objective, n objectives, finite?, grid)
     "plain": (p_plain, 1, False, None),
@@ -130,6 +138,8 @@ PROGRAMS: dict[str, tuple[Callable, int, bool, dict | None]] = {
     "multi": (p_multi, 2, False, None),
     "multi_cond": (p_multi_cond, 2, False, None),
     "finite": (p_finite, 1, True, None),
+    # 6 cells < 10 trials: the sampler has to recognise its own visited cells and stop the run
+    "nan_grid": (p_nan_grid, 1, False, {"x": [0.5, float("nan")], "y": [1, 2, 3]}),
 }
 
 
@@ -178,6 +188,8 @@ def compatible(sampler: str, prog: str, pruner: str) -> bool:
         return False
     if sampler == "Grid" and grid is None:
         return False
+    if prog == "nan_grid" and sampler != "Grid":
+        return False  # NaN as a categorical choice is only claimed for the grid sampler
     if n_obj > 1 and pruner != "Nop":
         return False  # pruning is not supported for multi-objective studies
     if prog not in ("report", "sparse") and pruner != "Nop":
@@ -263,7 +275,9 @@ def task_fn(task: tuple) -> dict:
         part.add("transitions", len(got))
         if e is not None:
             part.violation(f"{sampler}|mem|split-run-raises|{e.split(':')[0]}", dict(base, split=split, error=e))
-        elif got != ref and not (sampler in ("BruteForce", "Grid") and len(got) <= len(ref) and got == ref[:len(got)]):
+        elif got != ref and not (sampler in ("BruteForce", "Grid") and len(got) <= len(ref) and got == ref[:len(got)]) \
+                and not (sampler == "Grid" and len(ref) < N_TRIALS and got[:len(ref)] == ref and len(got) <= len(ref) + len(split) - 1):
+            # (an exhausted grid re-evaluates one cell per further optimize call: documented)
             part.violation(f"{sampler}|{pruner}|depends-on-split-into-optimize-calls", dict(base, split=split, diff=first_diff(ref, got)))
     if prog in ENQUEUE and sampler not in ("Grid", "BruteForce"):
         ref_e, err_e = run_one("mem", sampler, pruner, prog, seed, ENQ_SPLIT)
@@ -377,7 +391,7 @@ def run(tier: str, replay: str | None = None) -> int:
     ctx.assumptions += [
         "sequential optimize; deterministic objectives; 10 trials per run",
         "RDB = SQLite; gRPC = in-process stub; pre-existing study with 4 trials shifts trial ids on '+other' storages",
-        "BruteForce/Grid may stop early by themselves: a split run that is a prefix-equal shorter run is accepted",
+        "BruteForce/Grid may stop early by themselves: a split run that is a prefix-equal shorter run is accepted; an exhausted grid re-evaluates one cell per further optimize call (documented): a split run of an exhausted grid may be longer by at most that",
         "CMA-ES is not installed; GP only in the thorough tier",
     ]
     backends.cleanup_root()
